@@ -68,6 +68,8 @@ pub struct Config {
 	/// C15: a mining node re-requests a coinbase naming the key of an earlier coinbase of this wallet
 	/// (a still-unconfirmed candidate, or - a stale miner - one that is already confirmed)
 	pub stale_coinbase: bool,
+	/// invoices a wallet issues and pays itself (same or other account)
+	pub self_invoice: bool,
 }
 
 pub struct Viol {
@@ -312,8 +314,11 @@ impl<'a> History<'a> {
 			1 if self.cfg.late_lock => Kind::LateLock,
 			_ => Kind::Send,
 		};
-		if payer == payee && kind != Kind::Send {
+		if payer == payee && kind != Kind::Send && !(kind == Kind::Invoice && self.cfg.self_invoice) {
 			return;
+		}
+		if payer == payee && kind == Kind::Invoice {
+			self.stat("op:self-paid-invoice");
 		}
 		self.set_acct(payer, &payer_acct);
 		let sp = self.spendable(payer);
